@@ -578,3 +578,53 @@ def run_axis_role_params(res: Results, idx: Index) -> None:
 
 def _nth(seq: List[ast.AST], x: ast.AST) -> int:
     return next(i for i, y in enumerate(seq) if y is x)
+
+
+# ---------------------------------------------------------------------------------------------- R-C01k
+def run_irfft_length_conservation(res: Results, idx: Index) -> None:
+    """The inverse real FFT rebuilds the full spectrum from the one-sided one (n//2 + 1 bins) by appending `mirror_count`
+    conjugated bins and declares the result `target_len` long before running a DFT of that length.  The index
+    arithmetic that chooses the mirrored bins is evaluated for every target length 2..40: one-sided length + mirror
+    count must equal the target length (a shorter spectrum is silently zero-padded by DFT: right shape, wrong values)."""
+    from ..symeval import EvalRaise, Evaluator, Unsupported
+    FFT = "jax2onnx/plugins/jax/lax/fft.py"
+    res.rule("R-C01k", "IRFFT: one-sided bins + mirrored bins = transform length, for every length 2..40 (finite-domain evaluation of the index arithmetic)", floor=1)
+    f = idx.find_func(FFT, "FFTPlugin._lower_irfft")
+    key = f"{FFT}::FFTPlugin._lower_irfft::spectrum-length"
+    if f is None:
+        raise AnalysisError("FFTPlugin._lower_irfft not found")
+    blk = next((n for n in walk_no_nested(f.node) if isinstance(n, ast.If) and names_in(n.test) >= {"target_len", "onesided_len"}
+                and any(isinstance(x, ast.Name) and x.id == "mirror_count" and isinstance(x.ctx, ast.Store) for x in ast.walk(n))), None)
+    if blk is None:
+        res.unresolved("R-C01k", f.site, key, "the `if target_len > onesided_len:` reconstruction block with `mirror_count` was not found", f.qualname)
+        return
+    bad = []
+    n_eval = 0
+    for n in range(2, 41):
+        ev = Evaluator(idx, {})
+        env = {"target_len": n, "onesided_len": n // 2 + 1}
+        try:
+            if not ev.truth(ev.eval(blk.test, env, f, 0)):
+                mc = 0
+            else:
+                for st in blk.body:
+                    try:
+                        ev.block([st], env, f, 0)
+                    except (Unsupported, EvalRaise):
+                        if "mirror_count" in env:
+                            break
+                        raise
+                    if "mirror_count" in env:
+                        break
+                mc = env.get("mirror_count")
+        except (Unsupported, EvalRaise) as e:
+            res.unresolved("R-C01k", f"{FFT}:{blk.lineno}", key, f"index arithmetic not evaluable: {e}", f.qualname)
+            return
+        n_eval += 1
+        if not isinstance(mc, int) or (n // 2 + 1) + mc != n:
+            bad.append((n, mc))
+    if bad:
+        res.violation("R-C01k", f"{FFT}:{blk.lineno}", key, f"for transform length {bad[0][0]} the one-sided spectrum ({bad[0][0] // 2 + 1} bins) is extended by {bad[0][1]} mirrored bins: {bad[0][0] // 2 + 1 + (bad[0][1] or 0)} != {bad[0][0]} "
+                      f"({len(bad)} of {n_eval} lengths wrong: {[b[0] for b in bad][:8]}); the DFT pads the missing bins with zeros", f.qualname)
+    else:
+        res.ok("R-C01k", f"{FFT}:{blk.lineno}", key, f"one-sided + mirrored = transform length for {n_eval} lengths (even and odd)", f.qualname)
